@@ -320,7 +320,7 @@ def run(args):
                        'a crash of the simulated process is observed as death-by-signal of the forked child']
     if args.replay:
         return replay(args, rep)
-    budget = args.budget or (55 if args.tier == 'quick' else 900)
+    budget = args.budget or (45 if args.tier == 'quick' else 900)
     pool = common.ZygotePool(hashseeds=[0, 1] if args.tier == 'quick' else [0, 1, 2, 3])
     rep.hashseeds.update(pool.hashseeds)
     rng = random.Random(f'C04/{args.seed}')
